@@ -560,19 +560,63 @@ Lemma firstn_length_app {T} (a b : list T) : firstn (length a) (a ++ b) = a.
 Proof. induction a as [|x a IH]; cbn; [reflexivity|]. rewrite IH. reflexivity. Qed.
 
 (* ------------------------------------------------------------------ reading a body of n bytes *)
-Lemma take_width_exact cw t rest :
-  Forall (fun c => (1 <= cw c)%nat) t ->
-  take_width cw (text_width cw t) (t ++ rest) = (t, rest).
-Proof.
-  induction 1 as [|c t Hc Ht IH]; cbn [text_width app].
-  - destruct rest; reflexivity.
-  - cbn [take_width]. destruct (cw c + text_width cw t)%nat eqn:E; [lia|].
-    rewrite <- E. replace (cw c + text_width cw t - cw c)%nat with (text_width cw t) by lia.
-    rewrite IH. reflexivity.
-Qed.
+Lemma text_width_bound_aux cw t : sane_widths cw t -> (length t <= text_width cw t <= 4 * length t)%nat.
+Proof. induction 1 as [|c t Hc Ht IH]; cbn [text_width length]; lia. Qed.
 
 Lemma text_width_bound cw t : sane_widths cw t -> (length t <= text_width cw t <= 4 * length t)%nat.
-Proof. induction 1 as [|c t Hc Ht IH]; cbn [text_width length]; lia. Qed.
+Proof. apply text_width_bound_aux. Qed.
+
+Lemma text_width_app cw a b : text_width cw (a ++ b) = (text_width cw a + text_width cw b)%nat.
+Proof. induction a as [|c a IH]; cbn [app text_width]; [reflexivity|]. rewrite IH. lia. Qed.
+
+Lemma firstn_app_le {T} (n : nat) (a b : list T) : (n <= length a)%nat ->
+  firstn n (a ++ b) = firstn n a /\ skipn n (a ++ b) = skipn n a ++ b.
+Proof.
+  revert a. induction n as [|n IH]; intros a Hn; [split; reflexivity|].
+  destruct a as [|x a]; [cbn in Hn; lia|]. cbn [length] in Hn.
+  destruct (IH a ltac:(lia)) as [E1 E2]. cbn [app firstn skipn]. rewrite E1, E2. split; reflexivity.
+Qed.
+
+
+
+(* the loop invariant: what has been read is a prefix t1 of the body t1 ++ t2, the file holds
+   t2 ++ u; the chunk never reaches into u because no character is wider than chunk_div bytes *)
+Lemma read_text_loop_exact cw u : forall fuel t1 t2,
+  sane_widths cw t2 -> (length t2 < fuel)%nat ->
+  read_text_loop fuel cw (text_width cw (t1 ++ t2)) t1 (t2 ++ u) = (t1 ++ t2, u).
+Proof.
+  induction fuel as [|f IH]; intros t1 t2 Hw Hf; [lia|].
+  cbn [read_text_loop]. rewrite text_width_app.
+  replace (text_width cw t1 + text_width cw t2 - text_width cw t1)%nat with (text_width cw t2) by lia.
+  pose proof (text_width_bound_aux cw t2 Hw) as B.
+  destruct t2 as [|c t2'].
+  - cbn [text_width app]. rewrite app_nil_r. reflexivity.
+  - set (t2 := c :: t2') in *.
+    destruct (text_width cw t2) as [|m] eqn:Em.
+    { exfalso. unfold t2 in B. cbn [length] in B. lia. }
+    set (k := Nat.max 1 (S m / chunk_div)).
+    assert (Hk : (1 <= k <= length t2)%nat).
+    { unfold k, chunk_div. split; [lia|].
+      assert (S m / 4 <= length t2)%nat by (apply Nat.div_le_upper_bound; lia).
+      unfold t2 in *. cbn [length] in *. lia. }
+    change ((c :: t2') ++ u) with (t2 ++ u). destruct (t2 ++ u) as [|x r] eqn:Er; [discriminate|]. rewrite <- Er.
+    destruct (firstn_app_le k t2 u (proj2 Hk)) as [E1 E2]. rewrite E1, E2.
+    rewrite <- (firstn_skipn k t2) at 3.
+    assert (Hlen : (length (skipn k t2) < f)%nat) by (rewrite skipn_length; lia).
+    assert (Hw2 : sane_widths cw (skipn k t2)).
+    { unfold sane_widths in *. rewrite <- (firstn_skipn k t2) in Hw. apply Forall_app in Hw. apply Hw. }
+    pose proof (IH (t1 ++ firstn k t2) (skipn k t2) Hw2 Hlen) as P.
+    rewrite <- !app_assoc in P. rewrite (firstn_skipn k t2) in P. rewrite text_width_app, Em in P.
+    rewrite (firstn_skipn k t2). exact P.
+Qed.
+
+(* the contract of read_text_body: from t ++ u, asked for the number of bytes t encodes to, it
+   returns exactly t and leaves u *)
+Theorem read_text_exact cw t u : sane_widths cw t -> read_text cw (text_width cw t) (t ++ u) = (t, u).
+Proof.
+  intros Hw. unfold read_text.
+  apply (read_text_loop_exact cw u (S (length (t ++ u))) [] t Hw). rewrite app_length. lia.
+Qed.
 
 Lemma read_body_width cw t rest :
   sane_widths cw t ->
@@ -582,8 +626,7 @@ Proof.
   destruct (Z.ltb_spec (Z.of_nat (text_width cw t)) 0); [lia|]. cbn [orb].
   destruct (Z.ltb_spec (4 * Z.of_nat (length (t ++ rest))) (Z.of_nat (text_width cw t))) as [Hlt|_].
   - rewrite app_length in Hlt. lia.
-  - rewrite Nat2Z.id. apply take_width_exact.
-    eapply Forall_impl; [|exact Hs]. intros c Hc. cbn beta in Hc. lia.
+  - rewrite Nat2Z.id. apply read_text_exact. assumption.
 Qed.
 
 Lemma one_byte_width t : text_width one_byte t = length t /\ sane_widths one_byte t.
